@@ -143,6 +143,8 @@ def main():
     infra, cands, known_hit = [], [], {}
     for o in outs:
         infra += o.get('infra_errors') or []
+        for what, n in (o.get('known') or {}).items():
+            known_hit[what] = known_hit.get(what, 0) + n
         for v, rp in zip(o.get('violations') or [], o.get('replays') or []):
             k = match_known(v, known)
             if k:
